@@ -1,1 +1,326 @@
-pub fn main(_args: &[String]) -> i32 { 2 }
+//! C18 explorers: totality of the literal parser and of every expander over
+//!  (lit)  all strings up to a length bound as format literals in every literal position,
+//!  (tok)  all attribute token sequences up to a length bound for every helper attribute x position.
+//! Index-addressable spaces (`--lo/--hi`) so the Python side can bisect an abort or a hang.
+use crate::*;
+use rayon::prelude::*;
+use std::collections::BTreeMap;
+use std::sync::Mutex;
+
+pub const SIGMA: &[&str] = &[
+    "{", "}", ":", "$", ".", "*", "<", "^", ">", "+", "-", "#", "?", "0", "1", "9", "a", "x", "X", "o", "p", "b", "e", "E",
+    "_", "z", " ", "\t", "é", "€", "😀",
+];
+
+/// index -> string over SIGMA, length-first (all strings of length 0, then 1, ...).
+pub fn nth_string(mut idx: u64, sigma: &[&str]) -> String {
+    let k = sigma.len() as u64;
+    let mut len = 0u32;
+    let mut block = 1u64;
+    while idx >= block {
+        idx -= block;
+        block *= k;
+        len += 1;
+    }
+    let mut parts = Vec::with_capacity(len as usize);
+    for _ in 0..len {
+        parts.push(sigma[(idx % k) as usize]);
+        idx /= k;
+    }
+    parts.reverse();
+    parts.concat()
+}
+
+pub fn count_strings(maxlen: u32, k: u64) -> u64 {
+    let mut total = 0;
+    let mut block = 1;
+    for _ in 0..=maxlen {
+        total += block;
+        block *= k;
+    }
+    total
+}
+
+#[derive(Default)]
+pub struct Tally {
+    pub kinds: BTreeMap<String, u64>,
+    /// signature -> (index, witness, detail)
+    pub internal: BTreeMap<String, (u64, String, String)>,
+    pub max_us: u128,
+    pub slow: Vec<(u128, String)>,
+}
+
+impl Tally {
+    pub fn add(&mut self, idx: u64, o: &Outcome, witness: impl FnOnce() -> String, us: u128) {
+        let k = match o {
+            Outcome::Ok(_) => "ok".to_string(),
+            Outcome::Err(_) => "err".to_string(),
+            Outcome::ParseFail(_) => "unparsable-item".to_string(),
+            Outcome::Panic { loc, msg } => {
+                let c = classify_panic(loc);
+                if c == "internal" {
+                    let sig = format!("{} @ {}", generalize(msg), strip_col(loc));
+                    let e = self.internal.entry(sig).or_insert((u64::MAX, String::new(), String::new()));
+                    if idx < e.0 {
+                        *e = (idx, witness(), format!("{msg} @ {loc}"));
+                    }
+                    "panic-internal".to_string()
+                } else {
+                    "panic-deliberate".to_string()
+                }
+            }
+        };
+        *self.kinds.entry(k).or_insert(0) += 1;
+        if us > self.max_us {
+            self.max_us = us;
+        }
+    }
+    pub fn merge(mut self, other: Tally) -> Tally {
+        for (k, v) in other.kinds {
+            *self.kinds.entry(k).or_insert(0) += v;
+        }
+        for (k, v) in other.internal {
+            let e = self.internal.entry(k).or_insert((u64::MAX, String::new(), String::new()));
+            if v.0 < e.0 {
+                *e = v;
+            }
+        }
+        self.max_us = self.max_us.max(other.max_us);
+        self
+    }
+    pub fn json(&self) -> serde_json::Value {
+        serde_json::json!({
+            "kinds": self.kinds,
+            "max_us": self.max_us as u64,
+            "internal": self.internal.iter().map(|(sig, (i, w, d))| serde_json::json!({"signature": sig, "index": i, "witness": w, "detail": d})).collect::<Vec<_>>(),
+        })
+    }
+}
+
+fn strip_col(loc: &str) -> String {
+    // file:line:col -> file:line
+    match loc.rfind(':') {
+        Some(p) => loc[..p].to_string(),
+        None => loc.to_string(),
+    }
+}
+
+/// Replaces quoted payloads / numbers in panic messages so one root cause is one signature.
+fn generalize(msg: &str) -> String {
+    let mut out = String::new();
+    let mut in_q = false;
+    for c in msg.chars() {
+        match c {
+            '"' | '`' => {
+                in_q = !in_q;
+                out.push(c);
+            }
+            _ if in_q => {}
+            d if d.is_ascii_digit() => out.push('N'),
+            _ => out.push(c),
+        }
+    }
+    out.chars().take(120).collect()
+}
+
+fn lit_item(pos: usize, s: &str) -> (&'static str, syn::DeriveInput) {
+    let lit = syn::LitStr::new(s, proc_macro2::Span::call_site());
+    match pos {
+        0 => ("Display", syn::parse_quote! { #[display(#lit)] struct S<T>(T, T); }),
+        1 => ("Display", syn::parse_quote! { enum E<T> { #[display(#lit)] A(T, T), B } }),
+        2 => ("Display", syn::parse_quote! { #[display(#lit)] enum E<T> { A(T), #[display("own {_0}")] B(T), C } }),
+        3 => ("Debug", syn::parse_quote! { #[debug(#lit)] struct S<T>(T, T); }),
+        4 => ("Debug", syn::parse_quote! { struct S<T> { #[debug(#lit)] a: T, b: T } }),
+        5 => ("Display", syn::parse_quote! { #[display(#lit, _0, x = _1)] struct S<T>(T, T); }),
+        6 => ("LowerHex", syn::parse_quote! { #[lower_hex(#lit, _variant)] enum E { A, B(u8) } }),
+        7 => ("Pointer", syn::parse_quote! { #[pointer(#lit)] struct S<'a> { a: &'a u8, r#type: &'a u8 } }),
+        _ => unreachable!(),
+    }
+}
+pub const LIT_POSITIONS: usize = 8;
+
+fn arg<'a>(args: &'a [String], name: &str) -> Option<&'a str> {
+    args.iter().position(|a| a == name).and_then(|i| args.get(i + 1)).map(|s| s.as_str())
+}
+
+pub fn main(args: &[String]) -> i32 {
+    let sub = args.first().map(|s| s.as_str()).unwrap_or("");
+    match sub {
+        "lit" => lit_main(&args[1..]),
+        "tok" => tok_main(&args[1..]),
+        "parser" => parser_main(&args[1..]),
+        "witness" => witness_main(&args[1..]),
+        _ => {
+            eprintln!("usage: c18 lit|tok|parser --len L [--lo A --hi B]");
+            2
+        }
+    }
+}
+
+/// Direct calls into the literal parser (`format_string`, `format`) on every string up to a bound.
+fn parser_main(args: &[String]) -> i32 {
+    let maxlen: u32 = arg(args, "--len").unwrap_or("4").parse().unwrap();
+    let total = count_strings(maxlen, SIGMA.len() as u64);
+    let lo: u64 = arg(args, "--lo").map(|s| s.parse().unwrap()).unwrap_or(0);
+    let hi: u64 = arg(args, "--hi").map(|s| s.parse().unwrap()).unwrap_or(total);
+    let chunk = 1u64 << 14;
+    let nchunks = (hi - lo + chunk - 1) / chunk;
+    let tally = (0..nchunks)
+        .into_par_iter()
+        .map(|c| {
+            let mut t = Tally::default();
+            let a = lo + c * chunk;
+            let b = (a + chunk).min(hi);
+            for idx in a..b {
+                let s = nth_string(idx, SIGMA);
+                LAST_PANIC.with(|c| *c.borrow_mut() = None);
+                let t0 = std::time::Instant::now();
+                let r = catch_unwind(AssertUnwindSafe(|| {
+                    let a = crate::fmtparse::format_string(&s).map(|f| f.formats.len());
+                    let b = crate::fmtparse::format(&s).is_some();
+                    (a, b)
+                }));
+                let us = t0.elapsed().as_micros();
+                let o = match r {
+                    Ok((Some(_), _)) => Outcome::Ok(String::new()),
+                    Ok((None, _)) => Outcome::Err(String::new()),
+                    Err(_) => {
+                        let (msg, loc) = LAST_PANIC.with(|c| c.borrow_mut().take()).unwrap_or_default();
+                        Outcome::Panic { msg, loc }
+                    }
+                };
+                t.add(idx, &o, || format!("{s:?}"), us);
+            }
+            t
+        })
+        .reduce(Tally::default, Tally::merge);
+    println!("{}", serde_json::json!({"space": "parser", "maxlen": maxlen, "alphabet": SIGMA, "total": total, "lo": lo, "hi": hi, "calls": (hi - lo) * 2, "tally": tally.json()}));
+    0
+}
+
+fn lit_main(args: &[String]) -> i32 {
+    let maxlen: u32 = arg(args, "--len").unwrap_or("3").parse().unwrap();
+    let nstr = count_strings(maxlen, SIGMA.len() as u64);
+    let total = nstr * LIT_POSITIONS as u64;
+    let lo: u64 = arg(args, "--lo").map(|s| s.parse().unwrap()).unwrap_or(0);
+    let hi: u64 = arg(args, "--hi").map(|s| s.parse().unwrap()).unwrap_or(total);
+    let chunk = 1u64 << 12;
+    let nchunks = (hi - lo + chunk - 1) / chunk;
+    let tally = (0..nchunks)
+        .into_par_iter()
+        .map(|c| {
+            let mut t = Tally::default();
+            let a = lo + c * chunk;
+            let b = (a + chunk).min(hi);
+            for idx in a..b {
+                let s = nth_string(idx / LIT_POSITIONS as u64, SIGMA);
+                let pos = (idx % LIT_POSITIONS as u64) as usize;
+                let (dname, ast) = lit_item(pos, &s);
+                let d = find_derive(dname).unwrap();
+                let t0 = std::time::Instant::now();
+                let o = expand_ast(d, &ast);
+                let us = t0.elapsed().as_micros();
+                t.add(idx, &o, || format!("position {pos} ({dname}) literal {s:?}"), us);
+            }
+            t
+        })
+        .reduce(Tally::default, Tally::merge);
+    println!("{}", serde_json::json!({"space": "lit", "maxlen": maxlen, "alphabet": SIGMA, "positions": LIT_POSITIONS, "total": total, "lo": lo, "hi": hi, "tally": tally.json()}));
+    0
+}
+
+pub const TOKENS_FULL: &[&str] = &[
+    "ignore", "skip", "forward", "owned", "ref", "ref_mut", "source", "backtrace", "not", "bound", "repr", "types", "rename_all",
+    "fmt", "x", "=", ",", "\"s\"", "\"{}\"", "1", "true", "()", "(x)", "(ignore)", "(u8)", "<", ">", "::", "|", "&", "'a", "!",
+    "u8", "_0", "(1)", "(\"s\")", "(x, y)", "((x))",
+];
+pub const TOKENS_SMALL: &[&str] = &[
+    "ignore", "forward", "ref", "source", "not", "bound", "repr", "types", "x", "=", ",", "\"{}\"", "1", "(x)", "(u8)", "<", "::", "u8", "owned", "(1)",
+];
+
+/// (derive, attribute, template) triples; `@` is replaced by the attribute.
+pub fn tok_templates() -> Vec<(&'static Derive, &'static str, &'static str)> {
+    const TEMPLATES: &[&str] = &[
+        "@ struct S { a: u8, b: u8 }",
+        "struct S { @ a: u8, b: u8 }",
+        "@ struct S(u8);",
+        "struct S(@ u8);",
+        "@ enum E { V(u8), W }",
+        "enum E { @ V(u8), W }",
+        "enum E { V(@ u8), W { @ n: u8 } }",
+        "@ enum E { V, W }",
+    ];
+    let mut out = Vec::new();
+    for d in DERIVES {
+        for a in d.attrs {
+            for t in TEMPLATES {
+                out.push((d, *a, *t));
+            }
+        }
+    }
+    out
+}
+
+fn tok_main(args: &[String]) -> i32 {
+    let maxlen: u32 = arg(args, "--len").unwrap_or("3").parse().unwrap();
+    let small = args.iter().any(|a| a == "--small");
+    let alphabet = if small { TOKENS_SMALL } else { TOKENS_FULL };
+    let templates = tok_templates();
+    let nseq = count_strings(maxlen, alphabet.len() as u64);
+    let total = nseq * templates.len() as u64;
+    let lo: u64 = arg(args, "--lo").map(|s| s.parse().unwrap()).unwrap_or(0);
+    let hi: u64 = arg(args, "--hi").map(|s| s.parse().unwrap()).unwrap_or(total);
+    let spaced: Vec<String> = alphabet.iter().map(|t| format!(" {t} ")).collect();
+    let spaced_ref: Vec<&str> = spaced.iter().map(|s| s.as_str()).collect();
+    let chunk = 1u64 << 12;
+    let nchunks = (hi - lo + chunk - 1) / chunk;
+    let tally = (0..nchunks)
+        .into_par_iter()
+        .map(|c| {
+            let mut t = Tally::default();
+            let a = lo + c * chunk;
+            let b = (a + chunk).min(hi);
+            for idx in a..b {
+                let (d, attr, tmpl) = templates[(idx % templates.len() as u64) as usize];
+                let seq = nth_string(idx / templates.len() as u64, &spaced_ref);
+                // index 0 is the bare `#[attr]`, everything else `#[attr(seq)]` (incl. the empty `#[attr()]` via a dedicated token-less entry below)
+                let attr_text = if idx / (templates.len() as u64) == 0 { format!("#[{attr}]") } else { format!("#[{attr}({seq})]") };
+                let item = tmpl.replace('@', &attr_text);
+                let t0 = std::time::Instant::now();
+                let o = expand_str(d, &item);
+                let us = t0.elapsed().as_micros();
+                t.add(idx, &o, || format!("derive({}) on: {}", d.name, item), us);
+            }
+            t
+        })
+        .reduce(Tally::default, Tally::merge);
+    println!("{}", serde_json::json!({"space": "tok", "maxlen": maxlen, "alphabet": alphabet, "templates": templates.len(), "total": total, "lo": lo, "hi": hi, "tally": tally.json()}));
+    0
+}
+
+/// Prints the input at one index of a space without running it (used after bisecting an abort/hang).
+fn witness_main(args: &[String]) -> i32 {
+    let space = args.first().map(|s| s.as_str()).unwrap_or("");
+    let idx: u64 = arg(args, "--idx").unwrap().parse().unwrap();
+    let w = match space {
+        "parser" => format!("{:?}", nth_string(idx, SIGMA)),
+        "lit" => {
+            let s = nth_string(idx / LIT_POSITIONS as u64, SIGMA);
+            format!("position {} literal {:?}", idx % LIT_POSITIONS as u64, s)
+        }
+        "tok" => {
+            let small = args.iter().any(|a| a == "--small");
+            let alphabet = if small { TOKENS_SMALL } else { TOKENS_FULL };
+            let templates = tok_templates();
+            let spaced: Vec<String> = alphabet.iter().map(|t| format!(" {t} ")).collect();
+            let spaced_ref: Vec<&str> = spaced.iter().map(|s| s.as_str()).collect();
+            let (d, attr, tmpl) = templates[(idx % templates.len() as u64) as usize];
+            let seq = nth_string(idx / templates.len() as u64, &spaced_ref);
+            let attr_text = if idx / (templates.len() as u64) == 0 { format!("#[{attr}]") } else { format!("#[{attr}({seq})]") };
+            format!("derive({}) on: {}", d.name, tmpl.replace('@', &attr_text))
+        }
+        _ => return 2,
+    };
+    println!("{w}");
+    0
+}
